@@ -78,9 +78,18 @@ def setup():
 # ---------------------------------------------------------------- generators
 
 def _labels(rng, n):
-    scheme = rng.choice(["int", "int", "str", "tuple", "mixed", "frozenset", "shuffled", "offset"])
+    scheme = rng.choice(["int", "int", "str", "tuple", "mixed", "frozenset", "shuffled", "offset", "falsy"])
     if scheme == "int":
         return list(range(n))
+    if scheme == "falsy":
+        # None, 0, "", () and frozenset() are ordinary hashable labels ("any node labels"); code that tests
+        # `if parent:` / `.get(x) is None` instead of membership breaks on exactly these
+        special = [None, 0, "", (), frozenset()]
+        rng.shuffle(special)
+        labs = [10 + i for i in range(n)]
+        for k, pos in enumerate(rng.sample(range(n), min(n, rng.randint(1, len(special))))):
+            labs[pos] = special[k]
+        return labs
     if scheme == "str":
         return [chr(97 + i) * (1 + i % 2) for i in range(n)]
     if scheme == "tuple":
@@ -677,6 +686,11 @@ def _run_graph(case, obs):
         sh = fname == "bfs"
         for gname, gobj, gs, dist, key in [("pred", pred, goals, h_goal, ("u", s, tuple(goals))),
                                            ("value", labels[t], [t], H[t], ("u", s, (t,)))]:
+            if gname == "value" and gobj is None:
+                # bfs/dfs document goal=None as "no goal: explore everything", so a node labelled None cannot be
+                # named as the goal *value* (it can be the start, an inner node, or matched by a predicate)
+                obs.event("info.bfs-dfs-none-goal-value-skipped")
+                continue
             res = call(obs, fn, qlabels[s], gobj, unb, what=f"{fname}[{gname}]", budget=B)
             if not is_crash(res):
                 J.target_query(f"{fname}[{gname}]", res, s, gs, dist, key, labelled=True, shortest=sh, widx=uwidx)
